@@ -753,8 +753,10 @@ func (ev *c10Eval) evalPkg(mode string, slots []c10Variant, real [2][][]c10Prob,
 				dirs, _ := v.plan()
 				for i, d := range dirs {
 					txt := v.text()
-					if i == 1 {
+					if i == 1 && v.Second != nil {
 						txt = v.secondText()
+					} else if i == 1 {
+						txt = c10ExtraText
 					}
 					src += fmt.Sprintf("\ncomment %q on line %d of file %s of base %s", txt, d.dirLine, b.DirRole, b.Name)
 				}
@@ -911,6 +913,16 @@ type c10Case struct {
 
 func TestVerifC10(t *testing.T) {
 	res := vx.New(c10Rule)
+	// a panic of the harness itself must look neither like a violation nor like a pass: drop the
+	// (partial) result so that the driver reports an infrastructure error
+	defer func() {
+		if r := recover(); r != nil {
+			if out := os.Getenv("VERIF_OUT"); out != "" {
+				os.Remove(out)
+			}
+			panic(r)
+		}
+	}()
 	defer res.Write()
 	bin := os.Getenv("VERIF_BIN_STATICCHECK")
 	if bin == "" {
